@@ -95,7 +95,18 @@ def any_sym(ctx, vals):
 # external calls
 
 
+def _materialize_generators(ctx, args):
+    """an external consumer (max, sum, sorted, str.join, np.array ...) iterates over a generator argument: evaluate it now"""
+    out = []
+    for a in args:
+        if isinstance(a, Ref) and isinstance(ctx.cell(a), HGen):
+            a = ctx.new_list(iterate(ctx, a))
+        out.append(a)
+    return out
+
+
 def call_ext(ctx, fn, args, kwargs):
+    args = _materialize_generators(ctx, args)
     obj = fn.obj
     model = EXT_MODELS.get(_key(obj))
     if model is not None:
@@ -404,6 +415,22 @@ def m_gcd(ctx, args, kw):
     ctx.pc.append((g == 0) == z3.And(ta == 0, tb == 0))
     ctx.pc.append(z3.Implies(z3.Or(ta == 1, tb == 1, ta == -1, tb == -1), g == 1))
     return mk(g, "int")
+
+
+@model(np.lcm, math.lcm)
+def m_lcm(ctx, args, kw):
+    a, b = args
+    if not (isinstance(a, Sym) or isinstance(b, Sym)):
+        return NotImplemented
+    # lcm through the assumed contract of gcd: a = g*a', b = g*b' with coprime cofactors, lcm = |g*a'*b'|
+    g = m_gcd(ctx, [a, b], {})
+    ctx.assumed.add("lcm(a,b) = |a*b| / gcd(a,b) (0 when a or b is 0)")
+    ta, tb = term(a, "int"), term(b, "int")
+    l = ctx.fresh("int", "lcm").t
+    ctx.pc.append(l >= 0)
+    ctx.pc.append(z3.Implies(z3.Or(ta == 0, tb == 0), l == 0))
+    ctx.pc.append(z3.Implies(z3.And(ta != 0, tb != 0), z3.And(l * g.t == z3.If(ta * tb >= 0, ta * tb, -(ta * tb)), l > 0)))
+    return mk(l, "int")
 
 
 @model(math.isclose)
@@ -1515,6 +1542,11 @@ def iterate(ctx, v):
         return list(v)
     if isinstance(v, Ref):
         c = ctx.cell(v)
+        if isinstance(c, HGen):
+            if c.consumed:
+                return []
+            c.consumed = True
+            return c.thunk()
         if isinstance(c, HList):
             if c.items is None:
                 raise U()("iteration over a symbolic-length list without loop contract")
